@@ -34,6 +34,8 @@ is a shape the extractor does not understand (fail-closed, less serious, still w
     minmax-forms   v = min(v, e) -> if e < v: v = e; min(a, b) -> a if a <= b else b / min([a, b])
     extract-helper an arithmetic / boolean / conditional value of a return or assignment -> module-level helper over the locals it reads
     comprehension-to-loop  x = [E for v in it if c] -> x = []; for v in it: if c: x.append(E) (also sets, dicts, returns)
+    import-style   relative package imports <-> absolute ones
+    fstring-to-format  f"{a}x{b}" -> "{}x{}".format(a, b)
     hoist-strings  a string literal used twice in the functions of a module becomes a module-level constant
     extract-alias  .. x.costs[a] .. x.costs[b] ..  ->  alias = x.costs; .. alias[a] .. alias[b] ..
     inline-alias   c = x.costs; .. c[k] ..  ->  .. x.costs[k] ..   (top-level local bound once to an attribute chain of a parameter)
@@ -1038,6 +1040,54 @@ class ComprehensionToLoop(Rewrite):
         return IfExpToStmt.generic_visit(self, node)
 
 
+
+CURRENT = {"relpath": ""}
+
+
+class ImportStyle(Rewrite):
+    """relative package imports become absolute ones and the other way round:
+    `from ..utils.trees import f` <-> `from superrec2.utils.trees import f`"""
+
+    def visit_ImportFrom(self, node):
+        rel = CURRENT["relpath"]
+        parts = rel[:-3].split("/")
+        pkg = ["superrec2"] + (parts[:-1] if parts[-1] != "__init__" else parts[:-1])
+        if node.level and self.hit():
+            base = pkg[: len(pkg) - (node.level - 1)]
+            mod = ".".join(base + (node.module.split(".") if node.module else []))
+            return ast.ImportFrom(module=mod, names=node.names, level=0)
+        if not node.level and node.module and (node.module == "superrec2" or node.module.startswith("superrec2.")) and self.hit():
+            target = node.module.split(".")
+            common = 0
+            while common < len(pkg) and common < len(target) and pkg[common] == target[common]:
+                common += 1
+            level = len(pkg) - common + 1
+            rest = target[common:]
+            return ast.ImportFrom(module=".".join(rest) if rest else None, names=node.names, level=level)
+        return node
+
+
+class FStringToFormat(Rewrite):
+    """f"{a}x{b}" (no conversions, no format specs) -> "{}x{}".format(a, b)"""
+
+    def visit_JoinedStr(self, node):
+        for v in node.values:
+            if isinstance(v, ast.FormattedValue):
+                v.value = self.visit(v.value)  # (a format spec is a JoinedStr of its own and stays one)
+        fmt, args = "", []
+        for v in node.values:
+            if isinstance(v, ast.Constant) and isinstance(v.value, str):
+                fmt += v.value.replace("{", "{{").replace("}", "}}")
+            elif isinstance(v, ast.FormattedValue) and v.conversion == -1 and v.format_spec is None:
+                fmt += "{}"
+                args.append(v.value)
+            else:
+                return node
+        if not args or not self.hit():
+            return node
+        return ast.Call(func=ast.Attribute(value=ast.Constant(value=fmt), attr="format", ctx=ast.Load()), args=args, keywords=[])
+
+
 def package_signatures(prog):
     seen, dup = {}, set()
     for mod in prog.modules.values():
@@ -1085,6 +1135,8 @@ REWRITES = {
     "hoist-strings": lambda sig, only: HoistStrings(only),
     "modern-annotations": lambda sig, only: ModernAnnotations(only),
     "ete-synonyms": lambda sig, only: EteSynonyms(only),
+    "import-style": lambda sig, only: ImportStyle(only),
+    "fstring-to-format": lambda sig, only: FStringToFormat(only),
     "comprehension-to-loop": lambda sig, only: ComprehensionToLoop(only),
     "extract-helper": lambda sig, only: ExtractHelper(only),
     "lambda-to-def": lambda sig, only: LambdaToDef(only),
@@ -1137,6 +1189,7 @@ def main():
         if not mod.src.strip() or (args.module and mod.relpath != args.module):
             continue
         base = ast.unparse(ast.parse(mod.src))
+        CURRENT["relpath"] = mod.relpath
         for kind in kinds:
             new_src, count = variant(mod.src, kind, sig)
             if new_src != base:
@@ -1156,6 +1209,7 @@ def main():
         tasks = []
         for (relpath, kind) in gaps:
             mod = next(m for m in prog.modules.values() if m.relpath == relpath)
+            CURRENT["relpath"] = relpath
             _src, count = variant(mod.src, kind, sig)
             for i in range(count):
                 new_src, _c = variant(mod.src, kind, sig, only=i)
